@@ -415,6 +415,19 @@ theorem admits_allOf_example :
         .enumLit [.int 2, .int 4, .str "q"]]), ("b", .boolean)]) (.inst "K" [("x", .int 4)]) = true
     ∧ inSchemaFragment (flat "K" ["x"] [("x", .allOf [.integer {}, .float {}]), ("b", .boolean)]) = false := by decide
 
+/-- `OneOf` over Number / Integer / String options of pairwise different JSON types is inside
+    `schema_admits_partial`: the option that accepts the value accepts its serialization, every other
+    option's schema fails on `type`, so exactly one sub-schema matches.  Two numeric options are outside
+    (finding `admits:oneOf`: Python tells 1 from 1.0 and an int from a bool, JSON types do not) -/
+theorem admits_oneOf_example :
+    inSchemaFragment (flat "K" ["x"] [("x", .oneOf [.integer { min := some ⟨0, 1⟩ }, .string (some 1) none none]),
+        ("b", .boolean)]) = true
+    ∧ inAdmitRegion anyO (flat "K" ["x"] [("x", .oneOf [.integer { min := some ⟨0, 1⟩ }, .string (some 1) none none]),
+        ("b", .boolean)]) (.inst "K" [("x", .str "q")]) = true
+    ∧ verdict (flat "K" ["x"] [("x", .oneOf [.integer { min := some ⟨0, 1⟩ }, .string (some 1) none none]),
+        ("b", .boolean)]) (.inst "K" [("x", .str "q")]) = true
+    ∧ inSchemaFragment (flat "K" ["x"] [("x", .oneOf [.integer {}, .number {}]), ("b", .boolean)]) = false := by decide
+
 /-- fixed (was finding `ill-formed:default:not-json`): a default is written in its JSON form (a list of
     enum members as the list of their names, a set / tuple as an array); inside `schema_wellformed_partial` -/
 theorem fixed_default_json :
